@@ -13,6 +13,9 @@ import (
 // from Zn code (*syntax.BlockStmt). It's the constructor of 如何XX or (anoymous function in the future)
 func compileFunction(vm *r.VM, node *syntax.FunctionDeclareStmt) *value.Function {
 	var mainLogicHandler = func(receiver r.Element, params []r.Element) (r.Element, error) {
+		// until the first statement of the body runs, the call is at its own header line
+		// (an argument-count mismatch is reported there, not at 'line 0' of the module)
+		vm.SetCurrentLine(node.GetCurrentLine())
 		// 2. do eval exec block
 		return evalExecBlock(vm, node.ExecBlock, params)
 	}
@@ -96,22 +99,19 @@ func execDirectFunction(vm *r.VM, funcName *r.IDName, params []r.Element) (r.Ele
 	if err != nil {
 		return nil, err
 	}
+	// assert value is function type (no call has begun when it is not: no frame yet)
+	fn, ok := elem.(*value.Function)
+	if !ok {
+		return nil, zerr.InvalidFuncVariable(funcName.GetLiteral())
+	}
 	// a method written in Zn runs in the module that defines it, whatever name it is reached
 	// through (an alias of an imported method, a parameter, a loop variable)
-	if fnv, ok := elem.(*value.Function); ok && fnv.GetModule() != nil {
-		module = fnv.GetModule()
+	if fn.GetModule() != nil {
+		module = fn.GetModule()
 	}
 	// pushCallFrame
 	fnCallFrame := r.NewFunctionCallFrame(module, nil)
 	vm.PushCallFrame(fnCallFrame)
-
-	// assert value is function type
-	fn, ok := elem.(*value.Function)
-	if !ok {
-		err := zerr.InvalidFuncVariable(funcName.GetLiteral())
-		vm.PopCallFrameOnError(err)
-		return nil, err
-	}
 
 	if elem, err := fn.Exec(nil, params); err != nil {
 		vm.PopCallFrameOnError(err)
